@@ -476,7 +476,11 @@ func buildInstance(c *streamCase, t *tracker) (*instance, error) {
 		if 1<<bits != len(c.Sizes) {
 			return nil, fmt.Errorf("eachitem needs a power of two number of buckets, got %d", len(c.Sizes))
 		}
-		b := encoding.NewUint64MapBuilder(bits, 1)
+		// no tag bits: the builder raises bucketBits to tagBits, and the bucket of an id must be the one the case names
+		b := encoding.NewUint64MapBuilder(bits, 0)
+		if b.Layout.BucketBits != bits {
+			return nil, fmt.Errorf("eachitem: builder chose %d bucket bits, the case needs %d", b.Layout.BucketBits, bits)
+		}
 		type it struct {
 			id   uint64
 			data []byte
